@@ -1,0 +1,13 @@
+//go:build verif
+
+// Assumed contracts (the reflection-driven APER traversal is outside the verifier's subset):
+// Decoder returns a PDU or an error, Encoder octets or an error.  Comment-only file.
+
+package ngap
+
+//@ func Decoder
+//@ trusted
+//@ ensures either: err != nil || pdu != nil
+
+//@ func Encoder
+//@ trusted
